@@ -241,7 +241,8 @@ def link_conversions(run):
           run.violation(dict(clause="convert_po2", cls=cls, region=region),
                         dict(cfg="%s(%s)" % (cls, kw), quantizer_exponents=[lo_q, hi_q], qtools_exponents=[-mn, mx]),
                         dict(clause="convert_po2", cls=cls, kw=kw))
-  for cls, kw in lattice.fixed_lattice("thorough", 0, classes=("quantized_bits", "quantized_relu")):
+  one_bit = [("quantized_relu", dict(bits=1, integer=i)) for i in (0, 1, 2)] + [("quantized_bits", dict(bits=1, integer=i, keep_negative=False)) for i in (0, 1)]
+  for cls, kw in list(lattice.fixed_lattice("thorough", 0, classes=("quantized_bits", "quantized_relu"))) + one_bit:
     if kw.get("alpha") is not None or kw.get("use_sigmoid") or kw.get("relu_upper_bound") is not None:
       continue
     fmt = lattice.fixed_format(cls, kw)
@@ -252,6 +253,12 @@ def link_conversions(run):
     t.convert_qkeras_quantizer(q)
     n += 1
     if t.mode != 0:
+      # the converted type is one of the literal kinds (ternary / binary): every code of the quantizer's format must be one of its values
+      lit = {2: (-1, 0, 1), 3: (-1, 1), 4: (0, 1)}.get(t.mode)
+      codes = [fmt["step"] * k for k in range(fmt["lo"], fmt["hi"] + 1)]
+      if lit is None or any(c_ not in [Fraction(v) for v in lit] for c_ in codes):
+        run.violation(dict(clause="convert_fixed", cls=cls, what="literal_kind"), dict(cfg="%s(%s)" % (cls, kw), qtools_mode=int(t.mode), format_codes=[str(c_) for c_ in codes]),
+                      dict(clause="convert_fixed", cls=cls, kw=kw))
       continue
     s = int(bool(t.is_signed))
     frac = t.bits - s - t.int_bits
